@@ -303,3 +303,13 @@ func lookupConstInt(pkg *packages.Package, name string) *int64 {
 
 	return &v
 }
+
+// constStringOf returns the value of a string package-level constant ("" if absent).
+func constStringOf(pkg *packages.Package, name string) string {
+	c, ok := lookupObj(pkg, name).(*types.Const)
+	if !ok || c.Val().Kind() != constant.String {
+		return ""
+	}
+
+	return constant.StringVal(c.Val())
+}
